@@ -1,1 +1,3 @@
 import UmapProofs.Basic
+import UmapProofs.GraphLemmas
+import UmapProofs.GradLemmas
